@@ -227,12 +227,14 @@ def _scenario(rec, mjm, m, xml, rng, form):
   live = {w: True for w in range(nworld)}
   for t in range(T):
     inp = S.sample_inputs(mjm, rng, nworld)
-    for d in (A, B, D):
-      S.apply_inputs(d, inp)
-      mjw.step(m, d)
+    C13.step_all(m, (A, B, D), inp)
     sa, sb, sd = _snap(A, C13.TRAJ), _snap(B, C13.TRAJ), _snap(D, C13.TRAJ)
     for w in range(nworld):
       if not live[w]:
+        continue
+      if C13.overflowed((A, D) if valid[w] else (A, B), w):
+        live[w] = False
+        rec.count("traj_stopped_at_capacity_overflow")
         continue
       if valid[w]:
         r = C13._compare_step(rec, sa, sd, S.world_contacts(A, w), S.world_contacts(D, w), w, f"keyframe world {w} vs reset_data+keyframe by hand, step {t} (form {form})", "traj-keyframe:")
@@ -305,6 +307,9 @@ def requirements(agg, tier):
     unmet.append("too few models with mocap bodies / na>nu")
   if agg["tally"].get("bad_key_rejected", 0) < 20:
     unmet.append("invalid scalar keys / shapes probed fewer than 20 times")
+  t = agg["tally"]
+  if t.get("traj_valid_bit", 0) + t.get("traj_valid_round", 0) < 150 or t.get("traj_untouched_bit", 0) + t.get("traj_untouched_round", 0) < 150:
+    unmet.append("fewer than 150 post-reset world-steps judged for valid-key or for untouched worlds")
   if agg["distinct"] < 30:
     unmet.append("fewer than 30 distinct non-trivial cases")
   return unmet
